@@ -584,6 +584,12 @@ theorem F_exp (i : Nat) (hi : i < F.size) : F.expAt i = .ok (pw F.prim F.size i)
   rw [← hF.1] at this
   exact this
 
+theorem F_log (a : Nat) (h0 : a ≠ 0) (ha : a < F.size) : ∃ l, F.logOf a = .ok l ∧ l < F.size - 1 := by
+  have := mk'_log hF.2 F.base a h0 ha
+  rw [← hF.1] at this
+  obtain ⟨l, h1, h2, _⟩ := this
+  exact ⟨l, h1, h2⟩
+
 theorem F_log_pw (j : Nat) (hj : j < F.size - 1) : F.logOf (pw F.prim F.size j) = .ok j := by
   have := log_get hF.2 F.base j hj
   rw [← hF.1] at this
